@@ -91,7 +91,33 @@ CONFIGS = [
     ("pacbio-all", True, "pacbio_ccs", ["--transcript_quantification", "all", "--gene_quantification", "all", "--report_novel_unspliced", "true",
                                         "--model_construction_strategy", "sensitive_pacbio", "--count_exons", "--read_group", "read_id:_"]),
     ("split-locus", True, "nanopore", EXTRA),
+    # the reads in two files of one experiment (grouped by file name automatically): every second 3-kb window of a chromosome is covered
+    # by the second file only
+    ("two-files", True, "nanopore", ["--count_exons"]),
 ]
+
+
+def split_bam(bam):
+    """writes <bam>.a.bam / <bam>.b.bam (once): the records of a read name go to the file chosen by the window of its first record"""
+    import pysam
+    a, b = bam[:-4] + ".a.bam", bam[:-4] + ".b.bam"
+    if os.path.exists(a + ".bai") and os.path.exists(b + ".bai"):
+        return a, b
+    src = pysam.AlignmentFile(bam, "rb")
+    fa = pysam.AlignmentFile(a + ".tmp", "wb", template=src)
+    fb = pysam.AlignmentFile(b + ".tmp", "wb", template=src)
+    where = {}
+    for rec in src.fetch(until_eof=True):
+        if rec.query_name not in where:
+            where[rec.query_name] = fa if rec.is_unmapped or (rec.reference_start // 3000) % 2 == 0 else fb
+        where[rec.query_name].write(rec)
+    fa.close()
+    fb.close()
+    src.close()
+    for tmp, fin in ((a + ".tmp", a), (b + ".tmp", b)):
+        os.replace(tmp, fin)
+        pysam.index(fin)
+    return a, b
 
 
 def cfg_hook(cfg, then=None):
@@ -112,7 +138,11 @@ def cfg_hook(cfg, then=None):
 def argv_for(cfg, paths, out, threads=1, more=()):
     from vlib import run
     name, genedb, dt, extra = CONFIGS[cfg]
-    return run.base_argv(paths, out, data_type=dt, threads=threads, genedb=genedb, extra=list(extra) + list(more))
+    av = run.base_argv(paths, out, data_type=dt, threads=threads, genedb=genedb, extra=list(extra) + list(more))
+    if name == "two-files":
+        i = av.index("--bam")
+        av[i + 1:i + 2] = list(split_bam(paths["bam"]))
+    return av
 
 
 def base_and_variants(args):
@@ -392,7 +422,7 @@ def run(ctx):
     quick = ctx.tier == "quick"
     n_chr = 3 if quick else 4
     tot = dict(states=0, runs=0, seeds=0, schedules=0, modes=0, gorders=0, ncp=0, nperm=0)
-    cfgs = [0, 1, 3] if quick else [0, 1, 2, 3]
+    cfgs = [0, 1, 3, 4] if quick else [0, 1, 2, 3, 4]
     for cfg in cfgs:
         explore_config(ctx, cfg, n_chr, quick, tot)
     parts = tot["parts"]
